@@ -96,7 +96,11 @@ func IPNetToPrefix(subnet *net.IPNet, fam AddrFamily) (p netip.Prefix, err error
 		return netip.Prefix{}, fmt.Errorf("bad ip for subnet %v: %w", subnet, err)
 	}
 
-	ones, _ := subnet.Mask.Size()
+	ones, bits := subnet.Mask.Size()
+	if bits == 0 {
+		return netip.Prefix{}, fmt.Errorf("bad mask for subnet %v", subnet)
+	}
+
 	p = netip.PrefixFrom(addr, ones)
 	if !p.IsValid() {
 		return netip.Prefix{}, fmt.Errorf("bad subnet %v", subnet)
